@@ -386,7 +386,12 @@ func runC14(cfg Config) {
 		sr, cw := io.Pipe()
 		srv := desync.NewProtocolServer(sr, sw, ls)
 		done := make(chan error, 1)
-		go func() { done <- srv.Serve(context.Background()) }()
+		go func() {
+			err := srv.Serve(context.Background())
+			sw.Close() // the server process is gone: end of stream for the client, and what it still writes goes nowhere
+			go io.Copy(io.Discard, sr)
+			done <- err
+		}()
 		cl := desync.NewProtocol(cr, cw)
 		if _, err := cl.Initialize(desync.CaProtocolPullChunks); err != nil {
 			monitor("protocol handshake failed: "+err.Error(), "protocol")
